@@ -110,7 +110,20 @@ func Compare(aVal, bVal reflect.Value) int {
 			}
 		}
 		return 0
-	case reflect.Interface, reflect.Func, reflect.Map:
+	case reflect.Func, reflect.Map:
+		if c, ok := nilCompare(aVal, bVal); ok {
+			return c
+		}
+		ap, bp := aVal.Pointer(), bVal.Pointer()
+		switch {
+		case ap < bp:
+			return -1
+		case ap > bp:
+			return 1
+		default:
+			return 0
+		}
+	case reflect.Interface:
 		if c, ok := nilCompare(aVal, bVal); ok {
 			return c
 		}
